@@ -1,8 +1,6 @@
 from __future__ import annotations
 
 import copy
-import operator
-
 from datetime import date
 from datetime import datetime
 from datetime import timedelta
@@ -320,15 +318,16 @@ class Interval(Duration, Generic[_T]):
 
     def range(self, unit: str, amount: int = 1) -> Iterator[_T]:
         method = "add"
-        op = operator.le
-        if not self._absolute and self.invert:
+        backwards = not self._absolute and self.invert
+        if backwards:
             method = "subtract"
-            op = operator.ge
 
         start, end = self.start, self.end
 
         i = amount
-        while op(start, end):
+        # The bounds are compared as instants: inside a repeated hour
+        # the wall clock of a later value can be the earlier one.
+        while not (_is_after(end, start) if backwards else _is_after(start, end)):
             yield start
 
             start = getattr(self.start, method)(**{unit: i})
